@@ -300,6 +300,17 @@ def history(r, rec, trace, steps, hid):
                     pass
             if kk == "Function" and printable:
                 singles.append((kk + ":applied", o(printable[0])))
+    # an indexed symbol created with its own index is printed with that index when it stands alone
+    try:
+        own_idx = sympy.Idx("j_own")
+        ix = IndexedSymbol("Xi", own_idx, created[0][1].dimension if created and hasattr(created[0][1], "dimension") else None) if False else IndexedSymbol("Xi", own_idx)
+        for nm_, fn in (("code_str", code_str), ("latex_str", latex_str)):
+            rec.hit("own_index_printed")
+            text = str(fn(ix))
+            if "j_own" not in text.replace("{", "").replace("}", "").replace("\\", "") and "j_{own}" not in text:
+                rec.violation(f"indexed-symbol-own-index-lost:{nm_}", f"{nm_}(IndexedSymbol('Xi', Idx('j_own'))) = {text!r}: the symbol's own index is not shown", {"history": hid, "printer": nm_})
+    except Exception as ex:  # pylint: disable=broad-except
+        rec.inconc("own-index probe raised " + type(ex).__name__)
     exprs = [o for lb, o in singles if lb != "Function:bare"]   # (an unapplied function is not an expression)
     if len(exprs) >= 2:
         singles.append(("list", exprs[:3]))
